@@ -15,16 +15,16 @@ Failing(r) ==
   IF ~InDomain(m) THEN {}                                     \* counted by the harness as out of domain, never judged
   ELSE LET p == Partition(m, B) IN
        Check("C10.Partition", p)
-       \cup (IF ~p THEN {} ELSE
-              (IF ~r.aligned THEN {}        \* mis-aligned switch payloads: only the C40 link rule is in the domain
-               ELSE Check("C10.LeaderRule", LeaderRule(m, B))
-                    \cup Check("C10.OnlyLast", OnlyLast(m, B))
-                    \cup Check("C10.InstructionCount", \A k \in 1..Len(B) : r.B[k].nb = Len(B[k].ins))
-                    \cup Check("C11.SuccExact", SuccExact(m, B)) \cup Check("C11.PredInverse", PredInverse(B))
-                    \cup Check("C11.PredsAreBlocks", PredsAreBlocks(B))
-                    \cup Check("C12.ExcCover", ExcCover(m, B)))
-              \cup Check("C40.OffsetsAgree", OffsetsAgree(m, B))
-              \cup Check("C40.PayloadLinks", PayloadLinks(m, B)))
+       \cup (IF ~p \/ ~r.aligned THEN {}        \* mis-aligned switch payloads: only the C40 rules are in the domain
+             ELSE Check("C10.LeaderRule", LeaderRule(m, B))
+                  \cup Check("C10.OnlyLast", OnlyLast(m, B))
+                  \cup Check("C10.InstructionCount", \A k \in 1..Len(B) : r.B[k].nb = Len(B[k].ins))
+                  \cup Check("C11.SuccExact", SuccExact(m, B)) \cup Check("C11.PredInverse", PredInverse(B))
+                  \cup Check("C11.PredsAreBlocks", PredsAreBlocks(B))
+                  \cup Check("C12.ExcCover", ExcCover(m, B)))
+       \* the offset rules do not presuppose a partition: they are judged on whatever blocks were reported
+       \cup Check("C40.OffsetsAgree", OffsetsAgree(m, B))
+       \cup Check("C40.PayloadLinks", PayloadLinks(m, B))
 Init == l = 1
 Next == /\ l <= Len(Tr)
         /\ LET f == Failing(Tr[l]) IN IF f = {} THEN TRUE ELSE PrintT(<<"REJECT", l, f>>)
